@@ -697,17 +697,20 @@ class OGen:
     self.emit("import collections", "import enum",
               "from typing import Any, Dict, Generic, List, NamedTuple, Optional, Set, Tuple, TypeVar, Union", "")
     self.emit("T = TypeVar('T')", "S = TypeVar('S')")
-    # TypeVar ladder: unannotated three-parameter functions whose inferred signatures need two or
-    # three type variables (_T0.._T2).  It comes first so that, in a fresh process, the
-    # process-global placeholder ids (abstract.Unknown._current_id, 3 per function) handed to these
-    # parameters run densely from 0 to ~40 (crossing 9|10), while after any in-process history they
-    # start in the hundreds or thousands: a numbering of the type variables that depends on those
-    # ids (their magnitude, their text) gives a different stub in the isolated run than in the
-    # history runs.  (36 functions would also cross 99|100 but cost ~0.9 CPU-s per analysis.)
-    shapes = ["(c, [b], {a: b})", "[a, b, a]", "{a: (b, c), b: a}", "(b, a, c)", "[(a, c), (c, b)]",
-              "{c: [a, a], a: c}", "(c, b) if a else (b, c)"]
-    for _ in range(14):
-      self.emit(f"def {self.name()}(a, b, c): return {r.choice(shapes)}")
+    # TypeVar ladder: unannotated functions whose inferred signatures need 2-4 type variables
+    # (_T0.._T3).  pytype analyses top-level definitions in sorted-name order, so the "Aa<i>..."
+    # names make these the first functions analysed: in a fresh process their parameters get the
+    # process-global placeholder ids (abstract.Unknown._current_id) 0,1,2 | 3,4,5 | ... crossing
+    # 9|10, while after any in-process history the same parameters get ids in the hundreds or
+    # thousands.  A type-variable numbering that depends on those ids (their magnitude or their
+    # text) gives a different stub in the isolated run than in the history runs.
+    shapes3 = ["(c, [b], {a: b})", "{a: (b, c), b: a}", "(b, a, c)", "[(a, c), (c, b)]", "(c, b, a)"]
+    shapes4 = ["(d, c, b, a)", "[(a, d), (b, c)]", "{a: d, b: c}", "(b, [d], {c: a})"]
+    for i in range(8):
+      if i % 2 == 0:
+        self.emit(f"def Aa{i}{self.name()}(a, b, c): return {r.choice(shapes3)}")
+      else:
+        self.emit(f"def Aa{i}{self.name()}(a, b, c, d): return {r.choice(shapes4)}")
     funcs = [self.union_func() for _ in range(r.randint(2, 3))]
     classes = []
     for _ in range(r.randint(3, 5)):
